@@ -328,7 +328,9 @@ def handle_emit_contract(world, target, base_suffix):
         cases=[Case('applies-the-emit-to-the-local-clients', when=wf,
                     post=lambda c: delegated(c, base_suffix, dict(event=smt.vget(m(c), A('event')), data=smt.vget(m(c), A('data')), namespace=g(c, 'namespace'),
                                                                   room=g(c, 'room'), skip_sid=g(c, 'skip_sid')), 'return')),
-               Case('incomplete-message', when=lambda c: z3.Not(wf(c)), kind='raise', exc='Exception', update=lambda c: None),
+               Case('incomplete-message', when=lambda c: z3.Not(wf(c)), kind='raise', exc='Exception', update=lambda c: None, implicit_ok=True),
+               Case('callback-field-of-the-wrong-type', when=lambda c: z3.And(smt.vhas(m(c), A('callback')), smt.vget(m(c), A('callback')) != NONE),
+                    kind='raise', exc='TypeError', update=lambda c: None),
                Case('rejected', when=wf, kind='raise', exc='Exception', post=lambda c: {})],
         modifies=[('g', 'out'), ('g', 'raw'), ('manager', 'callbacks'), ('manager', 'ack_next')], props=['C07', 'C15'], thin=True)
 
